@@ -982,6 +982,20 @@ def fam_roundtrip(cfg, rng):
             h.emit('drop h1')
     elif c < 0.8:
         mutate(h, 0, rng.randint(1, 4))
+    elif c < 0.92 and st['k'] == 'L' and not st['p'] and len(st['v']) < cfg.n:
+        # the original was rebased on a hashed relative that extends it by zero values (or that it extends)
+        z = [h.pool[0]] * rng.randint(1, min(4, cfg.n - len(st['v'])))
+        h.hash(0)
+        h.new_list(3, st['v'] + z)
+        h.hash(3)
+        if rng.random() < 0.5:
+            h.rebase_on(0, 3)
+        else:
+            h.rebase_on(3, 0)
+            h.regs[0] = h.regs.pop(3)
+            h.emit('clone h3 h0')
+        h.emit('drop h3')
+        h.regs.pop(3, None)
     st = h.regs.get(0)
     if not st or len(st['v']) > 200:
         return h
@@ -1130,6 +1144,17 @@ def fam_par(cfg, rng):
     if rng.random() < 0.3:
         h.write(0)
         h.apply(0)
+    if rng.random() < 0.2:
+        # a hashed handle rebased on an independent, never hashed copy that differs in one place, then deduplicated:
+        # unhashed nodes under a hashed root when the parallel step starts
+        h.hash(0)
+        vs2 = list(h.regs[0]['v'])
+        vs2[rng.randrange(len(vs2))] = h.val()
+        h.emit('ssz_list h1 %s' % serialize(cfg.kind, vs2))
+        h.regs[1] = dict(k='L', v=vs2, p=False, b=len(vs2))
+        h.rebase_on(0, 1)
+        if rng.random() < 0.7:
+            h.intra(0)
     c = rng.random()
     if c < 0.5:
         h.emit('par_hash h0 %d' % rng.choice([2, 4, 8, 16]))
